@@ -2,7 +2,7 @@
    (statements; proofs in SpecLaws.v, SpecNoErr.v). *)
 From Coq Require Import List NArith ZArith.
 Import ListNotations.
-From PP Require Import Base Syntax Spec SpecMono SpecLaws.
+From PP Require Import Base Syntax Spec SpecMono SpecLaws Interp InterpProof.
 
 Theorem C05_push_pushes_matched_text : forall g c e s s1 p,
   evals g c e s (Ok s1 p) ->
@@ -81,6 +81,28 @@ Example nested_pushes_undone : exists s, parse g_undo 40 5 [97; 98]%N 0 = Ok s [
                                          /\ s_stk s = [].
 Proof. eexists. vm_compute. split; reflexivity. Qed.
 
+(* ---- the interpreter itself (model Interp.v of src/pest/grammar/**.parse + state.py, tied to mode I
+   on every run: trees, failure positions and expected sets) REFINES the reference semantics:
+   whenever it finishes, the reference semantics has the same outcome — same tree, same final
+   position / stack / tags, same furthest-failure record, same "undefined rule" — it never
+   reaches an inconsistent state (pop of an empty checkpoint or rule stack), and it returns with
+   every checkpoint, saved atomic depth and rule frame released. Hypothesis: a silent rule is
+   not `$` or `!` (grammar text allows one modifier per rule; necessity: InterpProof.
+   silent_compound_differs). Proof: InterpProof.v (simulation by induction on fuel). *)
+Theorem C05_interpreter_refines_semantics : forall g,
+  (forall n r, lookup g n = Some r -> r_silent r = true -> r_kind r = KNormal \/ r_kind r = KAtomic) ->
+  forall f rule input k,
+    match iparse g f rule input k with
+    | IOk true s' ps  => (exists f', parse g f' rule input k = Ok (abs_st s') ps)
+                         /\ i_saved s' = [] /\ i_dcps s' = [] /\ i_rules s' = [] /\ i_depth s' = 0
+    | IOk false s' _  => (exists f', parse g f' rule input k = Fail (i_trk s'))
+                         /\ i_saved s' = [] /\ i_dcps s' = [] /\ i_rules s' = []
+    | IUndef          => exists f', parse g f' rule input k = Err
+    | ICrash          => False
+    | IFuel           => True
+    end.
+Proof. exact iparse_refines_one_modifier. Qed.
+
 Print Assumptions C05_push_pushes_matched_text.
 Print Assumptions C05_push_literal_always.
 Print Assumptions C05_peek_matches_top.
@@ -95,3 +117,4 @@ Print Assumptions C05_optional_undone.
 Print Assumptions C05_and_undone.
 Print Assumptions C05_not_undone.
 Print Assumptions C05_iteration_undone.
+Print Assumptions C05_interpreter_refines_semantics.
